@@ -250,15 +250,42 @@ def run(chk):
     from fractions import Fraction as _Fr
     from ..alg import lift as _lift
 
+    def convex_coef(p_, lo, hi):
+        """c such that p == (1 - c) * lo + c * hi, or None"""
+        lo, hi = _lift(lo), _lift(hi)
+        la, ha = lo.single_atom(), hi.single_atom()
+        if la is None or ha is None:
+            return None
+        ka, kb = ((la, 1),), ((ha, 1),)
+        t = dict(_lift(p_).t)
+        a, b = t.pop(ka, 0), t.pop(kb, 0)
+        if t or a + b != 1:
+            return None
+        return b
+
+    def grid_axis_ok(points, lo, hi, m, what):
+        """`points`: the m coordinates of a regular grid of one axis: inside [lo, hi] (a convex combination of the axis' own
+        bounds), pairwise distinct, equally spaced - whether or not the upper bound is included"""
+        cs = []
+        for p_ in points:
+            c = convex_coef(p_, lo, hi)
+            if c is None or not (0 <= c <= 1):
+                raise Violation(what, f"grid point {p_}", f"a point of the closed interval [{lo}, {hi}] of this axis")
+            cs.append(c)
+        cs = sorted(cs)
+        if len(set(cs)) != m:
+            raise Violation(what, f"{len(set(cs))} distinct grid points: {[str(c) for c in cs]}", f"{m} distinct points")
+        steps = {cs[i + 1] - cs[i] for i in range(len(cs) - 1)}
+        if len(steps) > 1:
+            raise Violation(what, f"unequal spacing {sorted(str(x) for x in steps)}", "a regular grid")
+        return cs
+
     def expect_1d_grid(v, lo, hi, m, shape, what):
         if isinstance(v, Sym):
             raise Inconclusive(f"{what}: the grid is not built from concrete-count vectors: {str(v)[:160]}")
         v = expect_axes(v, shape, what)
-        got = [str(p) for p in v.entries()]
-        want = [str(_lift(lo) + (_lift(hi) - _lift(lo)) * _Fr(k, m)) for k in range(m)]
-        if sorted(got) != sorted(want):
-            raise Violation(what, f"stored grid {got}", f"the {m} points lower + (upper - lower) k / {m}: {want}")
-        return f"{m} points: lower + (upper - lower) k / {m}"
+        cs = grid_axis_ok(list(v.entries()), lo, hi, m, what)
+        return f"{m} regularly spaced points inside [lower, upper]: lower + (upper - lower) * {[str(c) for c in cs]}"
 
     def go_ode_grid(m):
         gen = G.cls("DataGeneratorODE")(Sym('key'), m, K('tmin'), K('tmax'), 2, method='grid')
@@ -307,17 +334,20 @@ def run(chk):
         if isinstance(om, Sym):
             raise Inconclusive(f"grid store is not built from concrete-count linspace vectors: {str(om)[:160]}")
         om = expect_axes(om, (n, d), f"{cname} grid store")
-        axis_pts = [[lift(box['min_pts'][i]) + (lift(box['max_pts'][i]) - lift(box['min_pts'][i])) * Fraction(k, m) for k in range(m)]
-                    for i in range(d)]
-        want = {tuple(str(axis_pts[i][ks[i]]) for i in range(d)) for ks in itertools.product(range(m), repeat=d)}
-        rows = [tuple(str(om.data[r, c]) for c in range(d)) for r in range(n)]
-        for r, row in enumerate(rows):
-            for c in range(d):
-                if row[c] not in {str(p) for p in axis_pts[c]}:
-                    raise Violation(f"{cname} grid row {r}", f"coordinate {c} of stored point {r} is {row[c]}",
-                                    f"a point of axis {c}'s grid between min{c} and max{c}")
-        if set(rows) != want or len(set(rows)) != n:
-            raise Violation(f"{cname} grid", f"{len(set(rows))} distinct points of {n}; missing {sorted(want - set(rows))[:2]}",
+        cols = []
+        for c in range(d):
+            col = [om.data[r, c] for r in range(n)]
+            distinct = []
+            for p_ in col:
+                if not any(p_ == q for q in distinct):
+                    distinct.append(p_)
+            if len(distinct) != m:
+                raise Violation(f"{cname} grid column {c}", f"{len(distinct)} distinct values in column {c}", f"{m} grid values per axis")
+            grid_axis_ok(distinct, box['min_pts'][c], box['max_pts'][c], m, f"{cname} grid column {c}")
+            cols.append([str(p_) for p_ in col])
+        rows = list(zip(*cols))
+        if len(set(rows)) != n:
+            raise Violation(f"{cname} grid", f"{len(set(rows))} distinct points of {n}",
                             f"every point of the {'x'.join([str(m)] * d)} product grid exactly once")
         return f"{n} stored points == the {'x'.join([str(m)] * d)} product grid, coordinate i in column i"
     for cname in ("CubicMeshPDEStatio", "CubicMeshPDENonStatio"):
